@@ -41,6 +41,7 @@ theorem PInv.exempt {w : World} (hp : PInv ex fr w) (p : Pid) : PInv (exAdd ex p
     e1 := fun h l q hm hq hx => hp.e1 h l q hm hq (fun h => hx (Or.inl h))
     op := fun e he ha x hb hx => hp.op e he ha x hb (fun h => hx (Or.inl h))
     oe := fun e he ha x hb hx => hp.oe e he ha x hb (fun h => hx (Or.inl h))
+    oh := fun e he ha x hb hx => hp.oh e he ha x hb (fun h => hx (Or.inl h))
     up := fun a ha b hb haa hba hbb x hbx hx => hp.up a ha b hb haa hba hbb x hbx (fun h => hx (Or.inl h))
     ue := fun a ha b hb haa hba hbb x hbx hx => hp.ue a ha b hb haa hba hbb x hbx (fun h => hx (Or.inl h)) }
 
@@ -70,6 +71,10 @@ theorem PInv.unexempt {w : World} {p : Pid} (hp : PInv (exAdd ex p) fr w)
       by_cases hxp : x = p
       · subst hxp; exact absurd hb (hnoev e he (Or.inr ha))
       · exact hp.oe e he ha x hb (fun h => h.elim hx hxp)
+    oh := fun e he ha x hb hx => by
+      by_cases hxp : x = p
+      · subst hxp; exact absurd hb (hnoev e he (Or.inr ha))
+      · exact hp.oh e he ha x hb (fun h => h.elim hx hxp)
     up := fun a ha b hb haa hba hbb x hbx hx => by
       by_cases hxp : x = p
       · subst hxp; exact absurd hbx (hnoev a ha (Or.inl haa))
@@ -107,7 +112,7 @@ theorem PInv.modProcEx {w : World} {p : Pid} (hp : PInv (exAdd ex p) fr w) (f : 
     · rw [h]
     · exact h
   refine { ei := hp.ei, ap := ?_, ae := ?_, ar := ?_, fb := ?_, w1 := ?_, wn := ?_, e1 := ?_, en := hp.en,
-           op := ?_, oe := ?_, up := hp.up, ue := hp.ue }
+           op := ?_, oe := ?_, up := hp.up, ue := hp.ue, oh := ?_ }
   · intro x; rcases hother x with h | ⟨_, _, _, h, _⟩
     · unfold procAw; rw [h]; exact hp.ap x
     · exact Or.inl h
@@ -137,6 +142,11 @@ theorem PInv.modProcEx {w : World} {p : Pid} (hp : PInv (exAdd ex p) fr w) (f : 
     obtain ⟨h, h1, h2⟩ := hp.oe e he ha x hb hx
     exact ⟨h, by rw [hpr x hxp]; exact h1, h2⟩
 
+  · intro e he ha x hb hx h hh
+    have hxp : x ≠ p := fun h => hx (Or.inr h)
+    rw [hpr x hxp] at hh
+    exact hp.oh e he ha x hb hx h hh
+
 /-- shrinking a waiter list never hurts -/
 theorem PInv.shrinkWaiters {w : World} (hp : PInv ex fr w) (q : Pid) (g : List Pid → List Pid)
     (hsub : ∀ l x, x ∈ g l → x ∈ l) (hnd : ∀ l, l.Nodup → (g l).Nodup) :
@@ -159,7 +169,8 @@ theorem PInv.shrinkWaiters {w : World} (hp : PInv ex fr w) (q : Pid) (g : List P
            w1 := fun x y hy hxy => by rw [(hpr y).1]; exact hp.w1 x y ((hpr x).2.2.2.1 y hy) hxy,
            wn := fun x => (hpr x).2.2.2.2,
            e1 := fun h l y hm hy hxy => by rw [(hpr y).1]; exact hp.e1 h l y hm hy hxy,
-           en := hp.en, op := ?_, oe := ?_, up := hp.up, ue := hp.ue }
+           en := hp.en, op := ?_, oe := ?_, up := hp.up, ue := hp.ue,
+           oh := fun e he ha x hb hx h hh => hp.oh e he ha x hb hx h (by rw [← (hpr x).1]; exact hh) }
   · intro e he ha x hb hx
     obtain ⟨q', h1, h2⟩ := hp.op e he ha x hb hx
     exact ⟨q', by rw [(hpr x).1]; exact h1, fun hm => h2 ((hpr q').2.2.2.1 x hm)⟩
